@@ -91,6 +91,11 @@ class StopWorld(World):
         x0kind = rng.choice(["zero", "zero", "random", "exact"])
         sysd["x0kind"] = x0kind
         x0 = np.zeros(n, dtype=M.dtype) if x0kind == "zero" else common.randn(g, (n,), cplx, round_=3)
+        sysd["scale"] = rng.choice([1.0, 1.0, 1.0, 1e-9, 1e-18, 1e6]) if kind in ("gm", "cg", "pdhg", "lls", "l2c") else 1.0
+        if sysd["scale"] != 1.0:
+            # tiny or huge data: a stopping rule must be about fixed points, not absolute sizes
+            y = y * sysd["scale"]
+            x0 = x0 * sysd["scale"]
         sysd["M"], sysd["y"], sysd["x0"] = codec.enc(M), codec.enc(y), codec.enc(x0)
         sysd["gkind"] = rng.choice(["none", "l1", "l1", "l2", "box"]) if not cplx else rng.choice(["none", "l1", "l1", "l2"])
         sysd["lam"] = float(round(10 ** rng.uniform(-1.5, 0.8), 4))
@@ -213,8 +218,16 @@ class StopWorld(World):
         mi = sysd["max_iter"]
         S = System()
         S.max_iter = mi
-        S.scale = float(np.linalg.norm(y) + np.linalg.norm(M) + 1.0)
+        sc_ = float(sysd.get("scale", 1.0))
+        S.scale = float(np.linalg.norm(y) + (np.linalg.norm(M) + 1.0) * sc_)
         gk, lam, lo, hi = sysd.get("gkind", "none"), sysd.get("lam", 0.1), sysd.get("lo"), sysd.get("hi")
+        sc0 = float(sysd.get("scale", 1.0))
+        if sc0 != 1.0:
+            # keep the regulariser commensurate with the data
+            if gk == "l1":
+                lam = lam * sc0
+            if gk == "box" and lo is not None:
+                lo, hi = lo * sc0, hi * sc0
         MH = M.conj().T.copy()
         np.random.seed(sysd["rng_seed"])
 
@@ -300,9 +313,9 @@ class StopWorld(World):
             if bk == "zero":
                 b = np.zeros(n, dtype=Amat.dtype)
             elif bk == "eigvec":
-                b = np.linalg.eigh(Amat)[1][:, 0].astype(Amat.dtype)
+                b = (np.linalg.eigh(Amat)[1][:, 0] * sc0).astype(Amat.dtype)
             else:
-                b = codec.dec(sysd["y"])[:n].astype(Amat.dtype) if m >= n else np.ones(n, dtype=Amat.dtype)
+                b = codec.dec(sysd["y"])[:n].astype(Amat.dtype) if m >= n else np.ones(n, dtype=Amat.dtype) * sc0
             x = codec.dec(sysd["x0"]).astype(Amat.dtype)
             if sysd.get("x0kind") == "exact":
                 x = np.linalg.solve(Amat, b)
@@ -314,7 +327,7 @@ class StopWorld(World):
             S.site = "ConjugateGradient"
             S.solution = lambda: [S.alg.x]
             S.breakdown = lambda: bool(S.alg.not_positive_definite)
-            S.scale = float(np.linalg.norm(b) + 1.0)
+            S.scale = float(np.linalg.norm(b) + sc_)
         elif kind == "pdhg":
             normA = float(np.linalg.norm(M, 2)) or 1.0
             x = x0.copy()
@@ -330,7 +343,7 @@ class StopWorld(World):
             if sysd.get("pdhg_form") == "analysis_l1":
                 # min_x 1/2||x - b||^2 + lam ||M x||_1 : projection-type dual prox, biased primal prox
                 proxfc = sp.prox.Conj(sp.prox.L1Reg([m], lam))
-                bvec = (x0 + 1.0).astype(dt) if np.all(x0 == 0) else x0.astype(dt)
+                bvec = (x0 + 1.0 * sc0).astype(dt) if np.all(x0 == 0) else x0.astype(dt)
                 pg_ = sp.prox.L2Reg([n], 1, y=bvec)
                 x = np.zeros(n, dtype=dt)
                 gd = 0
@@ -735,6 +748,8 @@ class StopWorld(World):
                     stats["probes.early_stop_alg_without_tol"] += 1
                     return
                 s0 = [np.array(s, copy=True) for s in S.solution()]
+                single_ = any(isinstance(a_, np.ndarray) and a_.dtype in (np.dtype("float32"), np.dtype("complex64")) for a_ in s0)
+                rtol_ = 1e-5 if single_ else 1e-12   # a solution held in single precision rests at its own resolution
                 remaining = mi - alg.iter
                 worst = 0.0
                 for j in range(remaining):
@@ -754,7 +769,7 @@ class StopWorld(World):
                         # once <r, r> has underflowed) is not covered by the statement
                         stats["probes.nonfinite_when_driven_past_exact_stop"] += 1
                         break
-                    if not np.isfinite(dev) or dev > 1e-12 * S.scale + 1e-9 * max(float(np.max(np.abs(b))) if np.size(b) else 0 for b in s0):
+                    if not np.isfinite(dev) or dev > rtol_ * S.scale + max(1e-9, rtol_) * max(float(np.max(np.abs(b))) if np.size(b) else 0 for b in s0):
                         self._flag(res, "early_stop_not_fixed_point", type(alg).__name__, step,
                                    {"stopped_at_iter": st["first_done"], "max_iter": mi, "extra_updates": j + 1,
                                     "moved": dev, "scale": S.scale})
@@ -911,7 +926,7 @@ class StopWorld(World):
         res.nontrivial = st["u"] > 0 or len(plan["schedule"]) > 0
         res.fingerprint = codec.json_digest([
             sysd["kind"], sysd.get("solver"), sysd.get("app"), sysd["complex"], sysd["n"], sysd["m"], sysd["max_iter"],
-            sysd.get("gkind"), sysd.get("x0kind"), sysd.get("accelerate"), sysd.get("steps"), sysd.get("gamma"), sysd.get("theta"), sysd.get("pdhg_form"), bool(sysd.get("x_narrow")),
+            sysd.get("gkind"), sysd.get("x0kind"), sysd.get("accelerate"), sysd.get("steps"), sysd.get("gamma"), sysd.get("theta"), sysd.get("pdhg_form"), bool(sysd.get("x_narrow")), sysd.get("scale"),
             sysd.get("form"), sysd.get("show_pbar"), bool(sysd.get("interfere")), bool(sysd.get("iterprox")), plan.get("style"),
             [(f["seam"], f.get("kind", "jump")) for f in plan.get("faults", [])],
             common.compress_actions(acts)[:40],
